@@ -24,7 +24,7 @@ use baa::{BitVecOps, BitVecValue, Value};
 use patronus::expr::*;
 use patronus::mc::{InitValue, ModelCheckResult, Witness, bmc, pdr};
 use patronus::sim::{InitKind, Interpreter, Simulator};
-use patronus::smt::{CVC5, Solver, YICES2, Z3};
+use patronus::smt::{CVC5, CheckSatResponse, Error, Logic, Solver, SolverContext, SolverMetaData, YICES2, Z3};
 use patronus::system::*;
 use std::collections::{HashMap, HashSet, VecDeque};
 use std::io::{Read, Write};
@@ -993,6 +993,8 @@ struct RunCfg {
     solver: String,
     gen_on: bool,
     sseed: u64,
+    /// fault injected at the n-th response-bearing call of the solver context: ("unknown"|"error", n)
+    fault: Option<(String, u64)>,
 }
 
 #[derive(Clone)]
@@ -1014,7 +1016,7 @@ fn configs(tier_runs: &str) -> Vec<RunCfg> {
                 if solver == "pushpop" && gen_on {
                     continue; // the profile has no get-unsat-assumptions: generalisation cannot be enabled
                 }
-                out.push(RunCfg { solver: solver.to_string(), gen_on, sseed: s.parse().expect("seed") });
+                out.push(RunCfg { solver: solver.to_string(), gen_on, sseed: s.parse().expect("seed"), fault: None });
             }
         }
     }
@@ -1036,6 +1038,7 @@ fn parent(args: &Args) {
     let small_share = args.get_u64("small-share", 70);
     // cvc5's unsat cores generalise poorly (1 933 queries on a 32-state system): cvc5 only up to cvc5-bits
     let cvc5_bits = args.get_u64("cvc5-bits", 4) as u32;
+    let n_faults = args.get_u64("faults", 0);
     let mut jobs: Vec<Job> = vec![];
     let mut distinct_sys = HashSet::new();
 
@@ -1052,6 +1055,7 @@ fn parent(args: &Args) {
                 solver: c.field("solver").map(|f| f[0].atom().to_string()).unwrap_or_else(|| "z3".into()),
                 gen_on: c.field("gen").map(|f| f[0].atom() == "on").unwrap_or(true),
                 sseed: c.field("sseed").map(|f| f[0].num()).unwrap_or(0),
+                fault: c.field("fault").filter(|f| f.len() >= 2).map(|f| (f[0].atom().to_string(), f[1].num())),
             };
             stats.bump("family", &fam);
             stats.bump("class", &class);
@@ -1162,6 +1166,20 @@ fn parent(args: &Args) {
         stats.bump("n_constraints", &format!("{}", sys.constraints.len()));
         let full = class.state_bits <= full_bits;
         stats.bump("config_set", if full { "all-configurations" } else { "z3-generalisation-on-only" });
+        // fault runs (property C15 on the real pdr): `unknown` / an error injected at one response-bearing call
+        for fk in 0..n_faults {
+            let kind = if r.chance(1, 2) { "unknown" } else { "error" };
+            let at = if r.chance(1, 3) { r.below(6) } else { r.below(60) };
+            let solver = if full && r.chance(1, 3) { "cvc5" } else { "z3" };
+            let gen_on = !full || r.chance(1, 2);
+            jobs.push(Job {
+                id: format!("{produced}.f{fk}"),
+                family: fam.to_string(),
+                class: label.clone(),
+                sys_text: sys_text.clone(),
+                cfg: RunCfg { solver: solver.to_string(), gen_on, sseed: 0, fault: Some((kind.to_string(), at)) },
+            });
+        }
         for (k, cfg) in cfgs.iter().enumerate() {
             if !full && !(cfg.solver == "z3" && cfg.gen_on) {
                 continue;
@@ -1201,17 +1219,24 @@ fn parent(args: &Args) {
     let mut script_hashes: HashMap<String, HashSet<String>> = HashMap::new();
     for (job, res) in jobs.iter().zip(results.iter()) {
         let line = format!(
-            "(case {} (family {}) (class {}) (solver {}) (gen {}) (sseed {}) {} {})",
+            "(case {} (family {}) (class {}) (solver {}) (gen {}) (sseed {}){} {} {})",
             job.id,
             job.family,
             job.class,
             job.cfg.solver,
             if job.cfg.gen_on { "on" } else { "off" },
             job.cfg.sseed,
+            match &job.cfg.fault {
+                Some((k, n)) => format!(" (fault {k} {n})"),
+                None => String::new(),
+            },
             job.sys_text,
             res.fields
         );
-        distinct.insert(format!("{} {} {} {}", job.sys_text, job.cfg.solver, job.cfg.gen_on, job.cfg.sseed));
+        if let Some((k, _)) = &job.cfg.fault {
+            stats.bump("fault_runs", &format!("{k}:{}:{}", if res.fields.contains("(faulthit 1)") { "hit" } else { "not-reached" }, res.kind));
+        }
+        distinct.insert(format!("{} {} {} {} {:?}", job.sys_text, job.cfg.solver, job.cfg.gen_on, job.cfg.sseed, job.cfg.fault));
         stats.bump("impl_result", &res.kind);
         stats.bump("impl_result_x_kind", &format!("{}:{}", res.kind, job.class.split("-d").next().unwrap_or("")));
         stats.bump("config", &format!("{}:gen-{}:seed{}", job.cfg.solver, if job.cfg.gen_on { "on" } else { "off" }, job.cfg.sseed));
@@ -1306,6 +1331,10 @@ fn run_one(job: &Job, watchdog: u64) -> RunResult {
     let real_path = std::env::var("PATH").unwrap_or_default();
     let mut child = Command::new(exe)
         .args(["C10", "--worker", "1", "--solver", &job.cfg.solver, "--gen", if job.cfg.gen_on { "on" } else { "off" }, "--sseed", &job.cfg.sseed.to_string()])
+        .args(match &job.cfg.fault {
+            Some((k, n)) => vec!["--fault-kind".to_string(), k.clone(), "--fault-at".to_string(), n.to_string()],
+            None => vec![],
+        })
         .env("PATH", format!("{}:{}", wrap_dir(), real_path))
         .env("C10_REAL_PATH", &real_path)
         .env("C10_SOLVER_SEED", job.cfg.sseed.to_string())
@@ -1389,6 +1418,119 @@ fn kind_is_fail(sx: &Sexp) -> bool {
 // worker: one run of the real pdr
 // ------------------------------------------------------------------------------------------------
 
+/// text of the injected error (the driver recognises it)
+pub const C10_FAULT_TEXT: &str = "injected: solver context error";
+
+/// A `SolverContext` that passes everything on to the real context and, at the n-th RESPONSE-BEARING call
+/// (check_sat, check_sat_assuming, get_value, get_unsat_assumptions; counted over restart()), replaces the
+/// result: `unknown` - a check answers `Ok(CheckSatResponse::Unknown)`; `error` - the call returns `Err`.
+/// The real call is made first, so the solver stays in step.  (Same idea as the context-level fault harness
+/// of C15; here the run also records the PDR trace, which the driver replays with the fault.)
+struct FaultyCtx<S: SolverContext> {
+    inner: S,
+    calls: u64,
+    at: Option<u64>,
+    fault: String,
+    hit: std::rc::Rc<std::cell::Cell<bool>>,
+}
+
+impl<S: SolverContext> FaultyCtx<S> {
+    fn hit(&mut self) -> bool {
+        let n = self.calls;
+        self.calls += 1;
+        self.at == Some(n)
+    }
+    fn err(&self) -> Error {
+        Error::FromSolver(self.inner.name().to_string(), C10_FAULT_TEXT.to_string())
+    }
+}
+
+impl<S: SolverContext> SolverMetaData for FaultyCtx<S> {
+    fn name(&self) -> &str {
+        self.inner.name()
+    }
+    fn supports_check_assuming(&self) -> bool {
+        self.inner.supports_check_assuming()
+    }
+    fn supports_uf(&self) -> bool {
+        self.inner.supports_uf()
+    }
+    fn supports_const_array(&self) -> bool {
+        self.inner.supports_const_array()
+    }
+    fn supports_get_unsat_assumptions(&self) -> bool {
+        self.inner.supports_get_unsat_assumptions()
+    }
+}
+
+impl<S: SolverContext> SolverContext for FaultyCtx<S> {
+    fn restart(&mut self) -> patronus::smt::Result<()> {
+        self.inner.restart()
+    }
+    fn set_logic(&mut self, option: Logic) -> patronus::smt::Result<()> {
+        self.inner.set_logic(option)
+    }
+    fn assert(&mut self, ctx: &Context, e: ExprRef) -> patronus::smt::Result<()> {
+        self.inner.assert(ctx, e)
+    }
+    fn declare_const(&mut self, ctx: &Context, symbol: ExprRef) -> patronus::smt::Result<()> {
+        self.inner.declare_const(ctx, symbol)
+    }
+    fn define_const(&mut self, ctx: &Context, symbol: ExprRef, expr: ExprRef) -> patronus::smt::Result<()> {
+        self.inner.define_const(ctx, symbol, expr)
+    }
+    fn check_sat_assuming(&mut self, ctx: &Context, props: impl IntoIterator<Item = ExprRef>) -> patronus::smt::Result<CheckSatResponse> {
+        let hit = self.hit();
+        let r = self.inner.check_sat_assuming(ctx, props);
+        if !hit {
+            return r;
+        }
+        self.hit.set(true);
+        match self.fault.as_str() {
+            "unknown" => r.map(|_| CheckSatResponse::Unknown),
+            _ => Err(self.err()),
+        }
+    }
+    fn check_sat(&mut self) -> patronus::smt::Result<CheckSatResponse> {
+        let hit = self.hit();
+        let r = self.inner.check_sat();
+        if !hit {
+            return r;
+        }
+        self.hit.set(true);
+        match self.fault.as_str() {
+            "unknown" => r.map(|_| CheckSatResponse::Unknown),
+            _ => Err(self.err()),
+        }
+    }
+    fn push(&mut self) -> patronus::smt::Result<()> {
+        self.inner.push()
+    }
+    fn pop(&mut self) -> patronus::smt::Result<()> {
+        self.inner.pop()
+    }
+    fn get_value(&mut self, ctx: &mut Context, e: ExprRef) -> patronus::smt::Result<ExprRef> {
+        let hit = self.hit();
+        let r = self.inner.get_value(ctx, e);
+        if hit && self.fault != "unknown" {
+            self.hit.set(true);
+            Err(self.err())
+        } else {
+            r
+        }
+    }
+    fn get_unsat_assumptions(&mut self, ctx: &mut Context) -> patronus::smt::Result<Vec<ExprRef>> {
+        let hit = self.hit();
+        let r = self.inner.get_unsat_assumptions(ctx);
+        if hit && self.fault != "unknown" {
+            self.hit.set(true);
+            Err(self.err())
+        } else {
+            r
+        }
+    }
+}
+
 fn worker(args: &Args) {
     let mut text = String::new();
     std::io::stdin().read_to_string(&mut text).expect("stdin");
@@ -1409,8 +1551,13 @@ fn worker(args: &Args) {
     let _ = std::fs::create_dir_all(dir);
     let script_path = format!("{dir}/{}.smt2", std::process::id());
     let file = std::fs::File::create(&script_path).expect("script file");
+    let fault_at = args.get("fault-at").map(|v| v.parse::<u64>().expect("fault-at"));
+    let fault_kind = args.get("fault-kind").unwrap_or("").to_string();
+    let hit_flag = std::rc::Rc::new(std::cell::Cell::new(false));
     let res = guarded(|| {
-        let mut smt_ctx = solver.start(Some(file)).map_err(|e| format!("start: {e}"))?;
+        let inner = solver.start(Some(file)).map_err(|e| format!("start: {e}"))?;
+        // always through the wrapper (transparent when no fault is requested)
+        let mut smt_ctx = FaultyCtx { inner, calls: 0, at: fault_at, fault: fault_kind.clone(), hit: hit_flag.clone() };
         if engine_bmc {
             // only for cross-checking a finding by hand: patronus' own bounded engine on the same system
             bmc(&mut ctx, &mut smt_ctx, &sys, false, false, 20).map_err(|e| format!("{e}"))
@@ -1435,7 +1582,7 @@ fn worker(args: &Args) {
     let script = script_stats(&script_path, &bases);
     let _ = std::fs::remove_file(&script_path);
     let trace = dump_trace(&ctx);
-    println!("(impl {impl_s}) (sim {sim_s}) (script {script}) (trace {trace})");
+    println!("(impl {impl_s}) (sim {sim_s}) (script {script}) (faulthit {}) (trace {trace})", if hit_flag.get() { 1 } else { 0 });
 }
 
 /// the logical trace of the run recorded by the cfg(patronus_verif) hook in pdr.rs (if the patronus
